@@ -1,6 +1,6 @@
 (* C05 property theorems: parameter blocks, schedules, and the message / schema / alerts / password decoders. *)
-From Coq Require Import NArith List Bool.
-From PV Require Import Model.ParamBlocks Spec.C05p Proofs.C05pFacts Spec.C05s Proofs.C05sFacts.
+From Coq Require Import NArith ZArith List Bool.
+From PV Require Import Model.DataTypes Model.ParamBlocks Spec.C05p Proofs.C05pFacts Spec.C05s Proofs.C05sFacts Spec.C05r Proofs.C05rFacts.
 Import ListNotations.
 Open Scope N_scope.
 
@@ -33,6 +33,19 @@ Print Assumptions C05_alerts.
 Theorem C05_password : C05_password_statement.
 Proof. exact C05sFacts.C05_password. Qed.
 Print Assumptions C05_password.
+
+(* regulator data over a schema: consecutive flags share bytes (LSB first, eight to a byte), every other entry starts on
+   a fresh byte and is the packed form of its type (C19); the whole message with its version word and frame versions *)
+Theorem C05_regdata_body : C05_regdata_body_statement.
+Proof. exact C05rFacts.C05_regdata_body. Qed.
+Print Assumptions C05_regdata_body.
+Theorem C05_regdata : C05_regdata_statement.
+Proof. exact C05rFacts.C05_regdata. Qed.
+Print Assumptions C05_regdata.
+Example C05_regdata_nonvacuous :
+  forallb entry_ok [mkRE 1 10 (DBool true); mkRE 2 10 (DBool false); mkRE 4 5 (DInt 513); mkRE 5 10 (DBool true);
+                    mkRE 14 12 (DRaw [65; 66]); mkRE 15 0 DNone; mkRE 16 1 (DInt (-3))] = true.
+Proof. vm_compute. reflexivity. Qed.
 
 (* non-vacuity: a value with every optional section present meets wf_sensor *)
 Example C05_sensor_nonvacuous :
